@@ -54,13 +54,13 @@ func (area) Requires() string {
 }
 func (area) Check() string { return "check_case" }
 func (area) Rule() string {
-	return "a pool of 5-10 key arguments: instance names of 0-4 components over {a,b,c,d e,é} nested under each other (92%) or invalid (leading/trailing/double slash, reserved keyword), property lists over 3 names x 4 values (incl. empty strings and a quote), 85% strictly sorted, else shuffled / with a duplicated pair / with two equal names in descending value order; 20-70 ops (thorough 40-200): Set (values 0..49), Remove (70% of a key that was set, else any key: absent keys make the Go code panic unless the path is an interior node), ContainsExact, GetExact, GetLongestPrefix, NewKey+GetPlatformQueueName, key equality of two pool entries, RegisterActionRouter with stub backends, RouteAction through a stub key extractor; non-trivial = a longest-prefix lookup that returned a strictly shorter registered prefix and a Remove of a registered key"
+	return "a pool of 5-10 key arguments: instance names of 0-4 components over {a,b,c,d e,é} nested under each other (92%) or invalid (leading/trailing/double slash, reserved keyword), property lists over 3 names x 5 values (incl. empty strings, a quote, JSON punctuation), 85% strictly sorted, else shuffled / with a duplicated pair / with two equal names in descending value order; 20-70 ops (thorough 40-200): Set (values 0..49), Remove (70% of a key that was set, else any key: absent keys make the Go code panic unless the path is an interior node), ContainsExact, GetExact, GetLongestPrefix, NewKey+GetPlatformQueueName, key equality of two pool entries, RegisterActionRouter with stub backends, RouteAction through a stub key extractor; non-trivial = a longest-prefix lookup that returned a strictly shorter registered prefix and a Remove of a registered key"
 }
 
 var comps = []string{"a", "b", "c", "d e", "é"}
 var reserved = []string{"blobs", "uploads", "actions", "actionResults", "operations", "capabilities", "compressed-blobs"}
 var pnames = []string{"arch", "os", ""}
-var pvalues = []string{"linux", "arm", "", "a\"b"}
+var pvalues = []string{"linux", "arm", "", "a\"b", "x}{,:y"}
 
 func genProps(r *rng.R) [][2]string {
 	n := r.Intn(4)
@@ -298,7 +298,7 @@ func (area) Execute(raw json.RawMessage) (string, *hcommon.Info, error) {
 				if k.GetInstanceNamePrefix().String() != qn.InstanceNamePrefix {
 					return "", nil, fmt.Errorf("GetPlatformQueueName/GetInstanceNamePrefix disagree")
 				}
-				gout = g.App("XKeyOk", g.Str(qn.InstanceNamePrefix), gProps(ps))
+				gout = g.App("XKeyOk", g.Str(qn.InstanceNamePrefix), gProps(ps), g.Str(k.GetPlatformString()))
 			}
 		case "keyeq":
 			gop = g.App("OKeyEq", gKarg(a), gKarg(b))
